@@ -58,6 +58,7 @@ type Ctx struct {
 	Replay   []string // non-nil: replay these case lines instead of generating
 	cases    *bufio.Writer
 	impl     *bufio.Writer
+	oracle   *bufio.Writer
 	count    int
 	Counters map[string]int
 	Samples  []string
@@ -67,12 +68,18 @@ type Ctx struct {
 
 // Emit records one case line and the implementation's answer for it.
 // Neither may contain a newline.
-func (c *Ctx) Emit(caseLine, implLine string) {
+func (c *Ctx) Emit(caseLine, implLine string) { c.EmitO(caseLine, implLine, "") }
+
+// EmitO additionally records the verdict of the property's own oracle on the implementation's
+// answer for this case: "" = holds / not applicable, otherwise a one-line description of the
+// violation (written to oracle.txt, line-aligned).
+func (c *Ctx) EmitO(caseLine, implLine, oracle string) {
 	if strings.ContainsAny(caseLine, "\n\r") || strings.ContainsAny(implLine, "\n\r") {
 		panic("newline in protocol line")
 	}
 	fmt.Fprintln(c.cases, caseLine)
 	fmt.Fprintln(c.impl, implLine)
+	fmt.Fprintln(c.oracle, strings.ReplaceAll(oracle, "\n", " "))
 	c.count++
 	if len(c.Samples) < 5 || (c.count%97 == 0 && len(c.Samples) < 12) {
 		s := caseLine
@@ -157,9 +164,13 @@ func main() {
 	if err != nil {
 		panic(err)
 	}
+	of, err := os.Create(filepath.Join(*out, "oracle.txt"))
+	if err != nil {
+		panic(err)
+	}
 	c := &Ctx{
 		Rng: NewRng(*seed), Seed: *seed, N: *n, Tier: *tier, Out: *out,
-		cases: bufio.NewWriterSize(cf, 1<<20), impl: bufio.NewWriterSize(imf, 1<<20),
+		cases: bufio.NewWriterSize(cf, 1<<20), impl: bufio.NewWriterSize(imf, 1<<20), oracle: bufio.NewWriterSize(of, 1<<20),
 		Counters: map[string]int{}, distinct: map[string]bool{}, Extra: map[string]any{},
 	}
 	if *replay != "" {
@@ -179,6 +190,8 @@ func main() {
 	fam.run(c)
 	c.cases.Flush()
 	c.impl.Flush()
+	c.oracle.Flush()
+	of.Close()
 	cf.Close()
 	imf.Close()
 	meta := map[string]any{
